@@ -548,6 +548,9 @@ def do_replay(prop, ctx: Ctx, streams: dict, path: str) -> int:
         print("model:   ", jdump(mobs))
     if v is not None:
         print(f"oracle:   FAILS  signature={v[0]}  {v[1]}")
+        if v[0] in {f["signature"] for f in load_known(prop.ID) if f.get("status") == "known"}:
+            print(f"KNOWN-FINDING: property={prop.ID} {v[0]}")
+            return 0
         print(f"VIOLATION property={prop.ID} replay={path}")
         return 1
     print("oracle:   holds")
